@@ -53,6 +53,11 @@ func cmdSweep(args []string) int {
 	for _, k := range keys {
 		t1 := time.Now()
 		res := generateOne(p, k, workDir, false)
+		if os.Getenv("GOVC_NOTES") != "" {
+			for _, n := range res.Notes {
+				fmt.Fprintln(os.Stderr, "   note:", n)
+			}
+		}
 		fmt.Fprintf(os.Stderr, "gen %-45s %6d obls %6.1fs %s\n", k, len(res.Obls), time.Since(t1).Seconds(), trunc(res.Undecided, 80))
 		results = append(results, res)
 		all = append(all, res.Obls...)
